@@ -188,7 +188,13 @@ structure TSpec where
   outs : List Str            -- `Outputs()` (already sorted by the code)
   bin : Bool                 -- `IsBinary`
   eps : List (Str × Str)     -- `EntryPoints` (a Go map: keys unique)
+  extra : List Str           -- the outputs that are NOT plain declared `outs = [...]`: named outputs
+                             -- (`outs = {"hdrs": [...]}`) and the outputs a filegroup derives from its sources
 deriving Repr
+
+/-- `DeclaredOutputs()`: only the outputs declared as a plain list.  `Outputs()` (= `outs`) is the sorted union of
+    declared, named and filegroup-derived outputs. -/
+def TSpec.declared (d : TSpec) : List Str := d.outs.filter fun o => !d.extra.contains o
 
 /-- A `BuildInput` as the replacement code sees it: `String()` and `Label()`. -/
 structure Input where
@@ -257,6 +263,7 @@ structure QuoteFacts where
   chars : Str
   left : Str
   right : Str
+  guardDeclared : Bool := false   -- the "has multiple outputs" guard counts DeclaredOutputs() instead of Outputs()
 deriving Repr, DecidableEq
 
 inductive Err | multi | notexe | noout | testtool | zero | nodep | badlabel | noep | hashfile | slice
@@ -305,7 +312,7 @@ def render (q : QuoteFacts) (paths : List Str) : Str :=
 /-- `checkAndReplaceSequence`. -/
 def checkAndReplace (q : QuoteFacts) (root : Str) (self : Bool) (dep : TSpec) (ep inp : Str)
     (runnable multiple dir outPrefix hash test allOutputs tool : Bool) : Except Err Str :=
-  if allOutputs && !multiple && dep.outs.length > 1 && ep = [] then .error .multi
+  if allOutputs && !multiple && (if q.guardDeclared then dep.declared.length else dep.outs.length) > 1 && ep = [] then .error .multi
   else if runnable && !dep.bin then .error .notexe
   else if runnable && dep.outs.length = 0 then .error .noout
   else if test && tool then .error .testtool
